@@ -422,6 +422,10 @@ func visitInstr(fr *frame, instr ssa.Instruction) continuation {
 		switch x := x.(type) {
 		case []value:
 			idx := i.index(fr.get(instr.Index), len(x))
+			if idx == 0 {
+				// remember the slice behind &s[0] for unsafe.String/unsafe.Slice
+				i.elemOwners[&x[0]] = x
+			}
 			fr.set(instr, &x[idx])
 		case *value: // *array
 			a := (*i.deref(x)).(array)
